@@ -21,12 +21,6 @@ from vlib.common import Rng
 
 PID = "C20"
 
-# pending findings (DEFECTS.md), keyed by the specific call site
-PENDING = {
-    "x2w-open-fail-on-stdout": "xml2wbxml reports an input file that cannot be opened on standard output "
-                               "(printf), not on standard error (tools/xml2wbxml_tool.c main, fopen failure branch)",
-}
-
 WML_HEAD = (b'<?xml version="1.0"?>\n<!DOCTYPE wml PUBLIC "-//WAPFORUM//DTD WML 1.1//EN" '
             b'"http://www.wapforum.org/DTD/wml_1.1.xml">\n')
 
@@ -222,7 +216,13 @@ def gen_cases(ctx, pools, nrand):
                   (["-o", "out", "in", "in2"], v, "two-files"), (["-o", "a", "-o", "out", "in"], v, "repeat-o"), (["-o", "out", "-o", "-", "in"], v, "repeat-o"),
                   (["-k", "-k", "-o", "out", "in"], v, "repeat-k"), (["-ko", "out", "in"], v, "cluster"), (["-kout", "in"], v, "cluster"),
                   (["-ok", "in"], v, "cluster"), (["-o-", "in"], v, "attached-dash"), (["-o", "--", "in"], v, "optarg-dashdash"), (["-o", "-k", "in"], v, "optarg-looks-like-option")]
-            S += [(["-o", "out", "-"], v, "stdin-is-dir")]
+            S += [(["-o", "out", "-"], v, "stdin-is-dir"), (["-"], v, "stdin-is-dir")]
+            # read error in mid-stream: non-blocking pipe holding n bytes (0 / less than a block / exactly one block / one and a
+            # half / several stdio buffers), write end open -> the error flag is raised after 0, 1, 2 ... stored blocks
+            for n in (0, 300, 1000, 1500, 2000, 4096, 5000, 9999):
+                S += [(["-o", "out", "-"], (big * (n // max(1, len(big)) + 1))[:n], "stdin-read-error-after-%d-bytes" % n),
+                      (["-"], (v * (n // max(1, len(v)) + 1))[:n], "stdin-read-error-after-%d-bytes" % n)]
+            S += [(["-k", "-o", "old.out", "-"], (big * 3)[:2500], "stdin-read-error-after-2500-bytes")]
             if tool == "w2x":
                 ws = V[-1] if V else v
                 for doc, kd in [(v, "valid"), (big, "large")]:
@@ -251,6 +251,8 @@ def gen_cases(ctx, pools, nrand):
                 c = mk(tool, fl, args, doc, kd)
                 if kd == "stdin-is-dir":
                     c["stdin"] = "DIR"
+                elif kd.startswith("stdin-read-error-after-"):
+                    c["stdin"] = ("NBPIPE", doc)
                 cases.append(c)
     # random part
     for n in range(nrand):
@@ -292,6 +294,8 @@ def gen_cases(ctx, pools, nrand):
         c["files"][b"in2"] = rng.choice(P["valid"])
         if rng.chance(1, 25):
             c["stdin"] = "DIR"
+        elif rng.chance(1, 12):
+            c["stdin"] = ("NBPIPE", (doc * 40)[:rng.choice([0, 1, 999, 1000, 1001, 1500, 2000, 3000, 4095, 4096, 4097, 8192, 12000])])
         elif rng.chance(1, 6):
             c["stdin"] = rng.choice(P[rng.choice(["valid", "invalid", "empty", "large"])])
         cases.append(c)
@@ -313,7 +317,7 @@ def parse_model_parse(line):
 def selected_input(case, fname):
     """what the environment delivers for the input name: 'FAIL' | 'ERR' | bytes"""
     if fname == b"-":
-        return "ERR" if case["stdin"] == "DIR" else case["stdin"]
+        return "ERR" if (case["stdin"] == "DIR" or isinstance(case["stdin"], tuple)) else case["stdin"]
     return cli.in_result(case, fname)
 
 
@@ -336,9 +340,8 @@ def model_expectation(case, mline, libres):
             m = "failed:" + hx(libres[1]) if libres else m
         err.append(m)
     out = b""
-    for m in msgs(f["stdout"]):
-        assert m.startswith("openin:")
-        out += b"Failed to open " + unhx(m[7:]) + b"\n"
+    for m in msgs(f["stdout"]):          # the model prints no message line on stdout (since /repo 1510f5b)
+        out += b"<model stdout line " + m.encode() + b">\n"
     changed = {}
     if f["sink"].startswith("stdout:"):
         out += unhx(f["sink"][7:])
@@ -375,10 +378,8 @@ def judge(ctx, case, obs, orc, libres, helptext):
         if obs["changed"] or conv_lines or obs["rc"] != 0:
             bad.append("unreadable input: no conversion, nothing written, status 0 expected")
         if not obs["stderr"]:
-            if tool == "x2w" and inp == "FAIL" and obs["stdout"] == b"Failed to open " + orc["file"] + b"\n":
-                return bad + ["PENDING:x2w-open-fail-on-stdout"]
             bad.append("unreadable input is not reported on standard error")
-        elif obs["stdout"]:
+        if obs["stdout"]:
             bad.append("unexpected bytes on stdout")
         return bad
     code, errstr, outb = libres
@@ -442,6 +443,15 @@ def run(ctx):
     driver = common.build_driver(PID)
     shutil.rmtree(cli.RUNROOT, ignore_errors=True)
 
+    # self-test of the two builds: on `tool in -o out` the AT&T getopt stops at "in" (nothing is written), glibc's
+    # permutes and writes `out`.  Guards against an include path that silently turns both builds into one flavour.
+    probe_doc = b"<?xml version=\"1.0\"?><!DOCTYPE sl PUBLIC \"-//WAPFORUM//DTD SL 1.0//EN\" \"http://www.wapforum.org/DTD/sl.dtd\"><sl href=\"http://a/\"/>"
+    wrote = {fl: "out" in cli.run_case(exes, mk("x2w", fl, ["in", "-o", "out"], probe_doc, "probe"), 0)["changed"] for fl in ("att", "posix")}
+    ctx.coverage["getopt_flavour_selftest"] = {"probe": "xml2wbxml in -o out", "wrote_out": wrote}
+    if wrote != {"att": False, "posix": True}:
+        raise common.BuildError("the two getopt builds are not the two flavours (probe `xml2wbxml in -o out` wrote out: %r); "
+                                "check the include order of tools/config.h in vlib/cli.build_tools" % wrote)
+
     # usage texts
     helptext = {}
     for fl in exes:
@@ -481,7 +491,7 @@ def run(ctx):
     # ---- model, phase 2 and comparison
     mlines, mlib = [], []
     for c, pm in zip(cases, parsed):
-        sin = "ERR" if c["stdin"] == "DIR" else hx(c["stdin"])
+        sin = "ERR" if (c["stdin"] == "DIR" or isinstance(c["stdin"], tuple)) else hx(c["stdin"])
         inp, lr, ook = "FAIL", None, "0"
         if isinstance(pm, dict):
             if pm["file"] is not None:
@@ -515,13 +525,11 @@ def run(ctx):
             # the in-process library call itself died (a matter for C01/C02): only the crash checks apply to the tool
             lib_unavailable += 1
             for b in judge(ctx, c, o, None, None, ht):
-                concrete.append({"what": b, "case": cj, "rc": o["rc"], "stderr": o["stderr"][-1500:], "note": "the in-process library call crashed as well"})
+                concrete.append({"what": b, "case": cj, "rc": o["rc"], "stderr": o["stderr"][-1500:].decode("latin-1"), "note": "the in-process library call crashed as well"})
             continue
         for b in judge(ctx, c, o, orc, olr, ht):
-            if b.startswith("PENDING:"):
-                pending.add(b[8:])
-            else:
-                concrete.append({"what": b, "case": cj, "rc": o["rc"], "stdout": o["stdout"][:400], "stderr": o["stderr"][-1500:],
+            if True:
+                concrete.append({"what": b, "case": cj, "rc": o["rc"], "stdout": o["stdout"][:400], "stderr": o["stderr"][-1500:].decode("latin-1"),
                                  "files_changed": {k: (hx(v[:200]) if isinstance(v, bytes) else v) for k, v in o["changed"].items()},
                                  "library_in_process": {"code": olr[0], "bytes": len(olr[2])} if olr else None})
         # correspondence
@@ -584,14 +592,8 @@ def run(ctx):
         "spec_vs_python_getopt_disagreements": len(spec_bad),
         "max_library_error_code": maxerr,
         "in_process_library_call_unavailable": lib_unavailable,
-        "pending_findings": sorted(pending),
         "partial": "real stdio after a successful fopen (short writes, fclose errors, full disk), signals, allocation failure inside the tools",
     })
-
-    for k in sorted(pending):
-        if not ctx.report_known(k):
-            print("KNOWN-FINDING: property=%s %s" % (PID, PENDING[k]), flush=True)
-            ctx.known_hits.append(k)
 
     if maxerr >= 256:
         ctx.violation("error-code-above-255", {"broken": "theorem C20_exit_status assumes every library code < 256", "max_code": maxerr}, found_input=False)
